@@ -300,6 +300,31 @@ func runC06(w *World, r *Report, tier string) {
 			// (from the entry, so that a flag variable set where the packet's type was tested is known on the path)
 			walkPaths(entryLoc(route), nil, nil, 200000, func(path []ssa.Instruction, end pathEnd) {
 				if countOn(path, func(in ssa.Instruction) bool { return in == ssa.Instruction(mc) }) == 0 {
+					// the only packets that are not offered to the routes are IQ responses claimed by a pending SendIQ
+					if _, isRet := path[len(path)-1].(*ssa.Return); isRet && end != endCycle {
+						claimed := pathAsserts(path, func(c ssa.Value, truth bool) bool {
+							if !truth {
+								return false
+							}
+							v := c
+							if rc := resolveOn(c, curEdgeIdx, path); rc != nil {
+								v = rc
+							}
+							ex, ok := v.(*ssa.Extract)
+							if !ok || ex.Index != 1 {
+								return false
+							}
+							lk, ok := ex.Tuple.(*ssa.Lookup)
+							if !ok {
+								return false
+							}
+							f, _ := loadedField(origin(lk.X))
+							return f != nil && f.Name() == "IQResultRoutes"
+						})
+						if !claimed {
+							bad = "a packet can leave route without having been offered to the routes (return at " + w.ipos(path[len(path)-1]) + "): the first matching route's handler does not run for it"
+						}
+					}
 					return
 				}
 				if _, isRet := path[len(path)-1].(*ssa.Return); !isRet {
